@@ -7,6 +7,7 @@ mod c01;
 mod c02;
 mod c04;
 mod c05;
+mod c06;
 mod c07;
 mod c08;
 mod c16;
@@ -21,6 +22,7 @@ fn main() {
                 "C03" => c02::run_c03(ctx, rep),
                 "C04" => c04::run(ctx, rep),
                 "C05" => c05::run(ctx, rep),
+                "C06" => c06::run(ctx, rep),
                 "C07" => c07::run(ctx, rep),
                 "C08" => c08::run(ctx, rep),
                 "C16" => c16::run(ctx, rep),
@@ -36,6 +38,7 @@ fn main() {
                 "C03" => c02::replay_c03(ctx, rep, case),
                 "C04" => c04::replay(ctx, rep, case),
                 "C05" => c05::replay(ctx, rep, case),
+                "C06" => c06::replay(ctx, rep, case),
                 "C07" => c07::replay(ctx, rep, case),
                 "C08" => c08::replay(ctx, rep, case),
                 "C16" => c16::replay(ctx, rep, case),
